@@ -1003,3 +1003,35 @@ def r13_allocation_size_in_wide_type(ck, P, rid='C15-R13'):
                         ck.violation(R, f.name, 'size argument of %s' % c.callee, '%s hands %s a size whose product was formed in 32 bits (%s) and widened afterwards: it wraps for 4 GiB and more, the overflow guard (which tests the 64-bit product) passes, the allocator is asked for the wrapped size and the object is built on a block that is too small' % (f.name, c.callee, z.loc()), z.loc())
     if n == 0:
         raise AnalysisBroken('%s: no allocation call found' % rid)
+
+
+def r14_parked_storage_released_on_every_exit(ck, P, rid='C15-R14'):
+    """Must-pass-through: when the result of a region operation is one of its operands, pixman_op parks the operand's rectangle array in a
+    local (old_data) and gives the result a fresh one.  From that point on every way out of the function - success, and each failure -
+    passes the release of the parked array (or the test that finds it NULL)."""
+    R = ck.rule(rid, 'in the band-merging worker of the region operators (both widths), every path from the load that parks an operand\'s data in the local old_data to a return passes a free of that local or the NULL test that guards it: a bare `return FALSE` from a failed growth of the result (the RECTALLOC form, which is right inside the helpers it was written for) leaves the function without going through the cleanup, and the operand\'s rectangle array is leaked while the result is correctly broken', floor=2)
+    n = 0
+    for f in P.functions():
+        vals = {x.i for x in f.insts() if x.dv == 'old_data' and x.ty.endswith('*')}
+        if not vals or f.unit.name not in ('pixman-region16.c', 'pixman-region32.c'):
+            continue
+        defs = [x for x in f.insts() if x.i in vals and x.op == 'load']
+        if not defs:
+            continue
+        def barrier(q):
+            if q.op == 'call' and q.callee == 'free':
+                o = f.strip_casts(q.a[0])
+                return o[0] == 'v' and o[1] in vals
+            if q.op == 'icmp' and any(a[0] == 'n' for a in q.a):
+                return any(a[0] == 'v' and f.strip_casts(a)[1] in vals for a in q.a if a[0] == 'v')
+            return False
+        for d in defs:
+            n += 1; ck.saw(f)
+            hit = f.reach_avoiding(d, barrier, lambda q: q.op == 'ret')
+            where = '%s (%s): operand data parked at %s' % (f.name, f.unit.name, d.loc())
+            if hit is None:
+                ck.ok(R, where, 'released on every exit')
+            else:
+                ck.violation(R, f.name, 'exit without releasing the parked data (%s)' % f.unit.name, '%s has a path from the point where it parks an operand\'s rectangle array in old_data (%s) to its return that passes neither free (old_data) nor the NULL test that guards it: a failure on that path returns with the array leaked' % (f.name, d.loc()), d.loc())
+    if n == 0:
+        raise AnalysisBroken('%s: no function parks region data in a local named old_data' % rid)
